@@ -100,7 +100,7 @@ CLAIMS.update({
              '("" second, "a" first, a class-rejected character first): equals equality of the specification\'s canonical forms, first operand\'s '
              'error first (Nickname: two applications of rules + lowercase). Thorough: both operands symbolic.',
         note='S-PIPE/S-STR; quick: strings of at most 1 character, thorough 2. Reflexivity/symmetry/transitivity follow from equality of canonical forms.',
-        design='4 (pipelines)', technique=T2 + 'pairs of symbolic strings over a closed alphabet'),
+        design='4 (pipelines)', technique=T2 + 'one symbolic and one constant operand over a closed alphabet (thorough: both symbolic)'),
     'C08': dict(
         text='(i) every scalar value through the real std to_lowercase: no DISALLOWED target for an IdentifierClass-valid source (UNASSIGNED '
              'targets = known finding); (ii) for the canonical form e that the specification assigns to enforce(y) (C04-C06 decide the real enforce '
